@@ -24,7 +24,7 @@ ASSUMPTIONS = ["values compared on the intersection of rows where both runs prod
                "hourly families, on days with usable usage in both runs for the daily family (a day without usage gets no prediction: C07), not for billing",
                "billing: the observed column is altered on the billing reads; the same read calendar is kept", "from_series entry: the first and last day of either run are not compared (the feed is cut to the span of the meter readings, so they may be partly spanned days)"]
 REQUIRED_REACH = {"pair.compared": 60, "pair.rows": 5000, "baseline.covers_all_months_and_weekdays": 6, "alteration.absent": 6, "alteration.all_nan": 6,
-                  "span.with_dst_change": 4, "span.with_weather_gaps": 4, "pair.presence_compared": 40, "pair.presence_rows": 5000, "span.daily_from_series_hourly_temperature": 2, "span.daily_from_series_interval_usage_with_weather_gaps": 2, "span.from_series_weather_gaps_over_local_midnight": 2, "span.with_duplicated_timestamps": 4, "span.from_series_feed_in_another_zone_than_the_meter": 2, "model.with_cells_in_the_outlier_temporal_cluster": 1}
+                  "span.with_dst_change": 4, "span.with_weather_gaps": 4, "pair.presence_compared": 40, "pair.presence_rows": 5000, "span.daily_from_series_hourly_temperature": 2, "span.daily_from_series_interval_usage_with_weather_gaps": 2, "span.from_series_weather_gaps_over_local_midnight": 2, "span.with_duplicated_timestamps": 4, "span.from_series_feed_in_another_zone_than_the_meter": 2, "model.with_cells_in_the_outlier_temporal_cluster": 1, "span.billing_from_series_hourly_temperature": 1}
 
 VIOL = []
 
@@ -129,6 +129,22 @@ def run_case(spec):
                 kw["tzinfo"] = zoneinfo.ZoneInfo(str(idx.tz))
         return em.DailyReportingData.from_series(meter, temp, is_electricity_data=True, **kw)
 
+    def billing_series_entry(frame):
+        """billing family, second entry point: the bills (reads at period starts, closing read last) + an HOURLY temperature feed"""
+        import opendsm.eemeter as em
+        idx = frame.index
+        hidx = pd.date_range(idx[0].tz_convert("UTC"), (idx[-1] + pd.Timedelta(days=1)).tz_convert("UTC"), freq="h", inclusive="left").tz_convert(idx.tz)
+        pos = np.searchsorted(idx.asi8 if idx.unit == "ns" else idx.as_unit("ns").asi8, hidx.asi8 if hidx.unit == "ns" else hidx.as_unit("ns").asi8, side="right") - 1
+        hT = frame["temperature"].to_numpy(dtype=float)[pos] + np.round(3 * np.sin(2 * np.pi * (hidx.hour.values - 15) / 24), 2)
+        temp = pd.Series(hT, index=hidx, name="temperature")
+        if "observed" not in frame.columns:
+            return em.BillingReportingData.from_series(None, temp, is_electricity_data=True)
+        rows = np.arange(0, len(frame), 30)
+        reads = frame["observed"].iloc[rows].rename("observed")
+        return em.BillingReportingData.from_series(reads, temp, is_electricity_data=True)
+    if fam.kind == "billing":
+        spans = spans + [("year/billing-from_series-hourly-temperature", "2019-01-01", 365)]
+
     def caltrack_series_entry(frame):
         """CalTRACK hourly, second entry point: meter series on the site's clock (or none) + the weather feed in UTC"""
         from opendsm.eemeter.models.hourly_caltrack import HourlyReportingData as CR_
@@ -147,7 +163,7 @@ def run_case(spec):
         spans = spans + [("partial/from_series-hourly-temperature", "2019-01-15" if tz != "Australia/Sydney" else "2019-07-15", 250),
                          ("partial/from_series-hourly-usage-and-temperature", "2019-02-10" if tz != "Australia/Sydney" else "2019-08-10", 120)]
     for sname, start, days in spans:
-        make_rd = caltrack_series_entry if "caltrack-from_series" in sname else ami_entry if "hourly-usage" in sname else series_entry if "from_series" in sname else fam.reporting_data
+        make_rd = billing_series_entry if "billing-from_series" in sname else caltrack_series_entry if "caltrack-from_series" in sname else ami_entry if "hourly-usage" in sname else series_entry if "from_series" in sname else fam.reporting_data
         base = fam.reporting_frame(rng, tz, start, days, with_observed=True)
         if "hourly-usage" in sname:
             base = FT.synth_hourly(tz=tz, start=start, days=days, seed=rng)[["temperature", "observed"]]
@@ -155,7 +171,9 @@ def run_case(spec):
             for a in rng.choice(np.arange(30, len(base) - 30), size=max(6, len(base) // 200), replace=False):
                 base.iloc[a:a + int(rng.integers(1, 5)), tcol] = np.nan               # short weather-station outages
             I.reach("span.daily_from_series_interval_usage_with_weather_gaps")
-        if "from_series" in sname:
+        if "billing-from_series" in sname:
+            I.reach("span.billing_from_series_hourly_temperature")
+        elif "from_series" in sname:
             I.reach("span.daily_from_series_hourly_temperature")
         if fam.kind == "billing":
             # billing reporting data: daily temperature + reads at period starts
